@@ -313,6 +313,8 @@ def run_shard(spec, ctx):
                             mod = st["model"]
                             mod = mod.value if isinstance(mod, WeightedTensor) else mod
                             fscale = torch.tensor(10 ** rng.uniform(-3.3, -1.8, size=mod.shape[-1]), dtype=mod.dtype)
+                            if rng.random() < 0.35:
+                                fscale[int(rng.integers(0, mod.shape[-1]))] = 0.0  # one feature reproduced exactly by the model
                             res = fscale * torch.tensor(rng.normal(size=tuple(mod.shape)), dtype=mod.dtype)
                             newy = torch.where(yw.weight.bool(), mod + res, torch.zeros_like(mod))
                             st["y"] = WeightedTensor(newy, yw.weight)
@@ -320,7 +322,9 @@ def run_shard(spec, ctx):
                             r2 = np.where(mask, res.numpy().astype(np.float64) ** 2, 0.0)
                             var_ft = r2.sum(axis=(0, 1)) / np.maximum(mask.sum(axis=(0, 1)), 1)
                             var_ref = var_ft if noise == "gaussian-diagonal" else np.array([r2.sum() / max(mask.sum(), 1)])
-                            if float(var_ref.min()) < 0.3e-5:
+                            if float(var_ref.min()) == 0.0:
+                                # a noise level of exactly 0 (or the NaN of a rounding-negative variance) is no admissible standard deviation:
+                                # the documented behaviour of the update rules is a convergence error
                                 expect_refusal = True
                                 if float(var_ref.max()) > 3e-5:
                                     ctx.count("direct_msteps_partially_collapsed_noise")
@@ -336,8 +340,8 @@ def run_shard(spec, ctx):
                         if expect_refusal:
                             # documented domain of the std-dev rules: a variance below the guard (1e-5) in ANY component is a convergence error
                             dead["v"] = True
-                            ctx.violation("mstep/collapsed-variance-accepted", "a maximisation step with a variance component clearly below the documented guard (1e-5) "
-                                          "was accepted instead of being refused with a convergence error", dict(case, direct_mstep="nearly collapsed dispersions", scale=scale),
+                            ctx.violation("mstep/collapsed-variance-accepted", "a maximisation step whose noise variance is exactly 0 for one component (feature reproduced exactly) "
+                                          "was accepted instead of being refused with the documented convergence error", dict(case, direct_mstep="nearly collapsed dispersions", scale=scale),
                                           noise_std=[float(x_) for x_ in np.atleast_1d(M.f64(rec["params_after"].get("noise_std", torch.zeros(())))[0]).reshape(-1)[:6]])
                             break
                         on_step(rec, st, dict(case, direct_mstep="nearly collapsed dispersions" if rep != 3 else "graded observation weights", scale=scale))
